@@ -224,22 +224,60 @@ def sig_multibatch_delete_cut(lines, d):
 
 
 def sig_v2_recommit_sharded(lines, d):
-    # K22: v2: the history is continued (SaveVersion) after reloading an older version
+    # K22: v2: re-committing existing versions after reloading an older one replaces their root rows: the
+    # checkpoint flag of a re-committed checkpoint version is lost, so a later tree object sees an older "last
+    # checkpoint", finds a checkpoint due at a version whose shard table already exists and fails (sharded);
+    # unsharded, a later deletion of old versions leaves the latest version unloadable.
+    # The checkpoint bookkeeping of the unchanged library is replayed here so that only the failures it
+    # explains are taken for K22: any other failing save / open after such a reload is a violation.
     idx = d["idx"]
-    saves = 0
-    for l in lines[:idx + 1]:
+    K, shard = 0, False
+    n = cur = 0
+    db_ckpts, mem_ckpts, tables = [], [], set()
+    recommitted = pruned_after_recommit = False
+    predicted_fail = False
+    for li, l in enumerate(lines[:idx + 1]):
         a = l.split()
-        if a[0] == "save":
-            saves += 1
-    reopened_older = False
-    n = 0
-    for l in lines[:idx + 1]:
-        a = l.split()
-        if a[0] == "save":
-            n += 1
-        if a[0] == "open" and len(a) > 1 and int(a[1]) < n:
-            reopened_older = True
-    return reopened_older and d["line"].split()[0] in ("save", "open") and (d["impl"] or "").startswith("err")
+        if not a:
+            continue
+        if a[0] == "cfg":
+            for tok in a[1:]:
+                if tok.startswith("ckpt="):
+                    K = int(tok[5:])
+                if tok.startswith("shard="):
+                    shard = tok == "shard=1"
+        elif a[0] == "open":
+            cur = int(a[1]) if len(a) > 1 else 0
+            mem_ckpts = sorted(db_ckpts)
+        elif a[0] == "prune" and recommitted:
+            pruned_after_recommit = True
+        elif a[0] == "save":
+            nxt = cur + 1
+            due = nxt == 1 or (K > 0 and mem_ckpts and nxt - mem_ckpts[-1] >= K) or (K > 0 and not mem_ckpts)
+            fails = due and shard and nxt in tables
+            if li == idx:
+                predicted_fail = fails
+                break
+            if fails:
+                continue          # the library reported an error: nothing changed
+            if nxt <= n:
+                recommitted = True
+            cur = nxt
+            n = max(n, cur)
+            if due:
+                tables.add(cur)
+                if cur not in db_ckpts:
+                    db_ckpts.append(cur)
+                mem_ckpts.append(cur)
+            elif cur in db_ckpts:
+                db_ckpts.remove(cur)
+    first = d["line"].split()[0]
+    err = (d["impl"] or "").startswith("err")
+    if first == "save":
+        return err and predicted_fail
+    if first == "open":
+        return err and recommitted and pruned_after_recommit
+    return False
 
 
 def sig_legacy_converted_root_clash(lines, d):
